@@ -41,8 +41,10 @@ def run(ctx):
     cf = ctx.cfg(lost)
     fl = ctx.facts(lost)
     loops = [n for n in cf.nodes if n.kind == "for" and "self.requests" in norm(n.stmt.iter)]
-    need(len(loops) == 1, "loop over the request table not found in _connectionLost")
+    need(len(loops) >= 1, "loop over the request table not found in _connectionLost")
     lp = loops[0]
+    r.check(len(loops) == 1, "%s#single-pass" % lost.qname, "the request table is walked %d times in the loss handler" % len(loops), where(lost, lp.stmt),
+            "entries are dropped / marked unsent in different passes: one of them can run after the reconnect")
     r.check(norm(lp.stmt.iter) in ("list(self.requests.values())", "tuple(self.requests.values())",
                                    "list(self.requests.copy().values())"), "%s#iterates-copy" % lost.qname,
             "loss handler iterates the live table while deleting from it", where(lost, lp.stmt),
@@ -59,6 +61,10 @@ def run(ctx):
     r.check(ok, "%s#drop-cancelled-mark-others" % lost.qname,
             "cancelled entries are not dropped / other entries are not marked unsent under the right condition",
             where(lost, lp.stmt), "cancelled requests are re-sent, or unanswered ones are not")
+    recon = [n for n in cf.nodes if any(call_name(c) == "_connect" and call_recv(c) == "self" for c in n.calls())]
+    r.check(bool(recon) and bool(marks) and not any(m.id in cf.reach([x.id]) for m in marks for x in recon), "%s#marked-before-reconnect" % lost.qname,
+            "requests are marked unsent after the reconnect is started", where(lost, lost.node),
+            "an endpoint whose connect() completes synchronously sends the queue while entries still look sent: nothing is re-sent")
     body = [t for t, lab in cf.succ[lp.id] if lab == ("iter", True)]
     r.check(bool(body) and lp.id not in cf.reach(body, avoid=[n.id for n in dels + marks]) and body[0] != lp.id,
             "%s#body-exhaustive" % lost.qname, "an entry can pass the loss handler untouched", where(lost, lp.stmt),
@@ -149,8 +155,12 @@ def run(ctx):
     fe = ctx.facts(eb)
     p = eb.first_param()
     rets = [n for n in ce.nodes if n.kind == "stmt" and isinstance(n.stmt, ast.Return) and norm(n.stmt.value or ast.Constant(value=None)) == p]
-    r.check(bool(rets) and all(known_truthy(fe[n.id], "self._dDown") for n in rets), "%s#stops-when-closing" % eb.qname,
-            "connect failure after close() still schedules another attempt", where(eb, eb.node), "connection attempts after close")
+    sched0 = [n for n in ce.nodes if any(call_name(c) in ("deferLater", "callLater") for c in n.calls())]
+    r.check(bool(rets) and all(known_truthy(fe[n.id], "self._dDown") for n in rets) and bool(sched0) and all(
+        known_falsy(fe[n.id], "self._dDown") for n in sched0), "%s#stops-when-closing" % eb.qname,
+            "a connect failure can schedule another attempt although close() was called", where(eb, eb.node),
+            "close() cancels the pending attempt; the endpoint reports it with an error class the guard does not expect: a retry "
+            "timer is armed, the close Deferred never fires, a connection is attempted after close")
     inc = [n for n in ce.nodes if n.kind == "stmt" and isinstance(n.stmt, ast.AugAssign) and self_attr(n.stmt.target) == "_failures"]
     dl = [n for n in ce.nodes if n.kind == "stmt" and isinstance(n.stmt, ast.Assign) and isinstance(n.stmt.value, ast.Call) and
           norm(n.stmt.value.func) == "self._retryPolicy"]
@@ -251,6 +261,9 @@ MUTANTS = [
     {"id": "retry-after-close", "file": "brokerclient.py",
      "old": "            if self._dDown:\n                log.debug(\"%r: breaking connect loop due to %r after close()\", self, fail)\n                return fail\n",
      "new": "", "expect": "C10.R5"},
+    {"id": "closing-guard-narrowed", "file": "brokerclient.py", "old": "            if self._dDown:\n                log.debug(\"%r: breaking connect loop",
+     "new": "            if self._dDown and fail.check(Exception) and not fail.check(ValueError):\n                log.debug(\"%r: breaking connect loop", "expect": "C10.R5",
+     "note": "seeded C20-2 (guard narrowed to one failure class)"},
     {"id": "close-keeps-pending", "file": "brokerclient.py", "old": "            if tReq.cancelled is None:\n                tReq.d.errback(reason)",
      "new": "            pass", "expect": "C10.R6"},
     {"id": "accept-after-close", "file": "brokerclient.py",
